@@ -295,7 +295,7 @@ func corruptFrame(t *rapid.T, m *simrt.Msg) wsFrame {
 	}
 	generic := []string{"binary", "invalid-utf8", "not-json", "unknown-label", "wrong-arity", "label-not-string", "trailing-garbage"}
 	evOnly := []string{"pubkey-off-curve", "sig-r-out-of-range", "uppercase-id", "uppercase-sig", "mixedcase-sig", "uppercase-pubkey", "short-id", "kind-negative", "kind-too-large", "kind-string", "altered-content", "altered-id", "altered-pubkey", "altered-sig", "forged-sig", "missing-sig", "tags-not-array", "extra-member"}
-	reqOnly := []string{"negative-since", "negative-limit", "unknown-filter-key", "filter-not-object", "subid-number", "ids-uppercase", "ids-unicode-digit", "authors-unicode-digit", "etag-unicode-digit", "atag-no-d-part", "atag-kind-not-number", "atag-short-pubkey", "kinds-string"}
+	reqOnly := []string{"negative-since", "negative-limit", "unknown-filter-key", "filter-not-object", "subid-number", "ids-uppercase", "ids-unicode-digit", "authors-unicode-digit", "etag-unicode-digit", "atag-no-d-part", "atag-kind-not-number", "atag-short-pubkey", "kinds-string", "limit-fraction", "since-fraction", "kinds-fraction", "until-exponent-fraction"}
 	pool := append([]string{}, generic...)
 	switch m.T {
 	case "EVENT":
@@ -426,6 +426,24 @@ func corruptFrame(t *rapid.T, m *simrt.Msg) wsFrame {
 	case "negative-limit":
 		w := msgWire(m)
 		w[2].(map[string]any)["limit"] = -1
+		f.Payload = marshalNoEscape(w)
+	case "limit-fraction": // numbers of a filter are integers
+		w := msgWire(m)
+		w[2].(map[string]any)["limit"] = json.Number("2.5")
+		f.Payload = marshalNoEscape(w)
+	case "since-fraction":
+		w := msgWire(m)
+		w[2].(map[string]any)["since"] = json.Number("10.25")
+		delete(w[2].(map[string]any), "until")
+		f.Payload = marshalNoEscape(w)
+	case "kinds-fraction":
+		w := msgWire(m)
+		w[2].(map[string]any)["kinds"] = []any{json.Number("1.9")}
+		f.Payload = marshalNoEscape(w)
+	case "until-exponent-fraction":
+		w := msgWire(m)
+		w[2].(map[string]any)["until"] = json.Number("1.5e0")
+		delete(w[2].(map[string]any), "since")
 		f.Payload = marshalNoEscape(w)
 	case "unknown-filter-key":
 		w := msgWire(m)
